@@ -4183,8 +4183,9 @@ def run_mutants(ctx, eng_repo, core, mutants, benign, baseline_keys):
 
 
 def _run_one(repo, core, mu):
-    base = Engine(repo)
-    f = base.func(mu.rel, mu.qualname)
+    """the edited copy replaces the function's node *in place* for the duration of the run (so that every analysis,
+    including the shared abstract interpreter, sees it) and is restored afterwards"""
+    f = repo.mod(mu.rel).func(mu.qualname)
     node = clone_func(f.node)
     try:
         applied = mu.fn(node)
@@ -4195,11 +4196,15 @@ def _run_one(repo, core, mu):
     for parent in ast.walk(node):
         for ch in ast.iter_child_nodes(parent):
             ch._parent = parent
+    node._parent = getattr(f.node, "_parent", None)
     ast.fix_missing_locations(node)
-    eng = Engine(repo, overrides={(mu.rel, mu.qualname): node})
+    orig = f.node
+    f.node = node
     c = Collector("quick")
     try:
-        core(c, eng)
+        core(c, Engine(repo))
     except AnalysisError as e:
         return c.keys(), "analysis error: %s" % str(e)[:160]
+    finally:
+        f.node = orig
     return c.keys(), None
